@@ -43,7 +43,80 @@ Example C13_history_injection_then_cleanup :
   length (agg (fst r)) = 1%nat /\ existsb (fun l => existsb is_panic l) (snd r) = false.
 Proof. vm_compute. split; reflexivity. Qed.
 
+(* ================================================================================================================================
+   X9 — THE PREMISE OF C13 ("a panic there terminates the whole guardian process") AS A THEOREM ABOUT THE EXTRACTED CONFIGURATION.
+   gen/ExtractedTree.v is regenerated from node/cmd/guardiand/node.go on every run: the one supervisor.New call and its options, the
+   root runnable statement by statement, and per service whether its function (or a wrapper in node.go) recovers panics.  The option's
+   meaning is read from node/pkg/supervisor (processSchedule installs its recover only `if !s.propagatePanic`).  model/NodeTree.v is the
+   process-level model: a panic in a supervised runnable's goroutine either is captured by processSchedule (an error exit: C18's restart
+   rule) or terminates the process; a panic in a goroutine a service started itself always terminates it. *)
+From WH Require Import gen.ExtractedTree model.Supervisor model.NodeTree proofs.SupervisorProofs proofs.NodeTreeProofs.
+From Coq Require Import String.
+Notation node_step := (pstep sup_done_ready_needs_exit node_tree).
+Notation node_run := (prun sup_done_ready_needs_exit node_tree).
+
+(* read from the source, discharged by computation: the supervisor runs with WithPropagatePanic, no service recovers panics itself,
+   and the processor is one of the supervised services.  If node.go drops the option or wraps a service in a recover, this stops compiling. *)
+Lemma node_config : nt_propagate node_tree = true /\ no_service_recovers node_tree = true /\
+                    exists sv, svc_named node_tree "processor"%string = Some sv /\ sv_recovers sv = false.
+Proof. vm_compute. repeat split. eexists. split; reflexivity. Qed.
+
+Definition processor_dn : dn := [sid node_tree "processor"%string].
+
+(* a panic in the processor's Run goroutine — any handler of C13_no_panic's model producing a Panic outcome would be one — terminates the
+   process, for every flag configuration and every state in which the processor runs *)
+Theorem C13_processor_panic_terminates_the_process : forall c s,
+  has (processor_dn, TInst) (s_toks (p_sup s)) = true -> node_step c s (PPanic processor_dn) = PCrash (CPanic processor_dn).
+Proof. intros c s. apply panic_terminates_process; [apply node_config|apply no_recover; apply node_config]. Qed.
+
+(* the same for every supervised runnable of the tree (the root runnable, the watchers, p2p, the RPC services, and their children) *)
+Theorem C13_supervised_panic_terminates_the_process : forall c s d,
+  has (d, TInst) (s_toks (p_sup s)) = true -> node_step c s (PPanic d) = PCrash (CPanic d).
+Proof. intros c s d. apply panic_terminates_process; [apply node_config|apply no_recover; apply node_config]. Qed.
+
+(* the converse, for ANY tree: without the option (or with a recover around the service) the panic is an error exit of that runnable and
+   the supervisor restarts it (props/C18.v) — the process survives *)
+Theorem C13_captured_panic_is_an_error_exit : forall T c s d, nt_propagate T && negb (recovers T d) = false ->
+  pstep sup_done_ready_needs_exit T c s (PPanic d) = pstep sup_done_ready_needs_exit T c s (PSup (EReturn d RErr)) \/ d = [].
+Proof. exact panic_captured_is_error_exit. Qed.
+
+(* a panic in a goroutine that a service started itself (`go func` inside its Run, outside the supervisor's reach) terminates the process
+   WHATEVER the supervisor's options are: T is arbitrary.  Which services have such goroutines is extracted (spawning_services). *)
+Theorem C13_spawned_goroutine_panic_terminates_regardless : forall T c s x,
+  In x (p_started s) -> spawns_unguarded T x = true -> pstep sup_done_ready_needs_exit T c s (PSpawnPanic x) = PCrash (CSpawnPanic x).
+Proof. exact spawn_panic_terminates_regardless. Qed.
+
+Theorem C13_unsupervised_goroutine_panic_terminates : forall c s n,
+  (n < List.length (nt_unsupervised node_tree))%nat -> node_step c s (POutsidePanic n) = PCrash (COutsidePanic n).
+Proof. exact (outside_panic_terminates node_tree). Qed.
+
+(* and nothing else terminates the process abnormally: after every history a crashing step is a panic event (a runnable panicking, a
+   Signal call in the wrong state, a spawned or unsupervised goroutine panicking); the supervisor's own code never panics *)
+Theorem C13_crash_only_by_panic : forall c h s e cz, node_run c h pinit = PRun s -> node_step c s e = PCrash cz -> panic_event s e = true.
+Proof. intros c h s e cz Hrun. apply crash_only_by_panic. exact (node_inv node_tree c h s Hrun). Qed.
+
+Theorem C13_supervisor_never_crashes_the_process : forall c h, node_run c h pinit <> PCrash CSupervisor.
+Proof. exact (node_crash_never_by_supervisor node_tree). Qed.
+
+(* non-vacuity: under the deterministic scheduler every service of the extracted tree gets started, the processor among them; its
+   panic then crashes the process; the processor itself has goroutines of its own (broadcastSignature, handleCleanup) *)
+Example C13_node_example :
+  let m := play sup_done_ready_needs_exit node_tree (fun _ => true) 40 [PPanic processor_dn] (sim_init 0) in
+  let m0 := settle sup_done_ready_needs_exit node_tree (fun _ => true) 40 (sim_init 0) in
+  sm_out m = PCrash (CPanic processor_dn) /\
+  (exists s, sm_out m0 = PRun s /\ has (processor_dn, TInst) (s_toks (p_sup s)) = true /\ In (sid node_tree "processor"%string) (p_started s)) /\
+  spawns_unguarded node_tree (sid node_tree "processor"%string) = true.
+Proof. vm_compute. split; [reflexivity|]. split; [|reflexivity]. eexists. split; [reflexivity|]. split; [reflexivity|]. auto 20. Qed.
+
 Print Assumptions C13_no_panic.
 Print Assumptions C13_undecodable_inbound_vaa_is_dropped.
 Print Assumptions C13_unrecoverable_observation_is_dropped.
 Print Assumptions C13_message_before_first_set_is_dropped.
+Print Assumptions node_config.
+Print Assumptions C13_processor_panic_terminates_the_process.
+Print Assumptions C13_supervised_panic_terminates_the_process.
+Print Assumptions C13_captured_panic_is_an_error_exit.
+Print Assumptions C13_spawned_goroutine_panic_terminates_regardless.
+Print Assumptions C13_unsupervised_goroutine_panic_terminates.
+Print Assumptions C13_crash_only_by_panic.
+Print Assumptions C13_supervisor_never_crashes_the_process.
